@@ -2,7 +2,7 @@
 import os, subprocess, re
 import kdf
 
-THEOREMS = ["Kdf.Props.C06." + t for t in ("inv_flush", "inv_step_partial", "inv_step_weak", "inv_iff_weak", "inv_step_counterexample", "no_ub", "no_ub_weak", "inv_reachable_partial", "inv_reachable_weak", "inv_reachable_counterexample", "busy_iff", "busy_unchanged", "referenced_stable", "cached_stable", "hit_key", "miss_entry")]
+THEOREMS = ["Kdf.Props.C06." + t for t in ("inv_flush", "inv_step_partial", "inv_step_weak", "inv_iff_weak", "inv_step_counterexample", "no_ub", "no_ub_weak", "inv_reachable_partial", "inv_reachable_weak", "inv_reachable_counterexample", "busy_iff", "busy_unchanged", "referenced_stable", "cached_stable", "hit_key", "miss_entry", "buffer_addresses_distinct")]
 
 
 class Impl:
@@ -221,6 +221,21 @@ def run(R):
             break
     model = kdf.obs(R.run_driver("cache", "\n".join(allops) + "\n"))
     mism = kdf.diff_streams(allimpl, model)
+    # buffers of a cache larger than 4 GiB (untouched address space; built without sanitizers): each entry of the first half
+    # owns data + i * elemsize, the second half owns none (lean: Kdf.Props.C06.buffer_addresses_distinct)
+    big = []
+    try:
+        libp, cfp = R.build_lib(san=False, tag="libplain")
+        exeb = R.build_harness("s_cachebig", ["s_cachebig.c"], lib=libp, cflags=cfp + ["-ffunction-sections", "-fdata-sections"], ldflags=["-Wl,--gc-sections"])
+        rcb, outb, errb = R.run_harness(exeb, stdin_text="", timeout=120)
+        big = kdf.obs(outb)
+        badb = [o for o in big if not o.startswith(("big ok", "big skipped"))]
+        if (rcb != 0 or badb or len(big) != 3) and not failure:
+            R.violation("cache of more than 4 GiB of buffers: %s (rc=%s %s)" % (badb or big, rcb, errb.strip()[:200]),
+                        dict(stream="cache/big", how="harness/s_cachebig.c: cache_alloc(5, 1 GiB), cache_alloc(3, 2 GiB + 4096), cache_alloc(65537, 64 KiB); "
+                             "entry i must own data + i * elemsize", answers=big, broken_theorems=proof["broken"]))
+    except kdf.CheckBroken as e:
+        big = ["build failed: " + str(e)[:200]]
     if failure:
         ops, lines, fail = failure
         R.violation(fail, dict(stream="cache", input="\n".join(ops) + "\n", last_states=lines[-3:], broken_theorems=proof["broken"]))
@@ -235,7 +250,7 @@ def run(R):
     cov = dict(obligations=max(proof["obligations"], 1), discharged=proof["discharged"],
                checker_cmd="cd lean && lake build Kdf.Props.C06 && #print axioms on each theorem",
                trusted_base=["Lean 4 kernel", "axioms: " + ", ".join(sorted({a for v in proof["axioms"].values() for a in v}) or ["none"]),
-                             "harness/s_cache.c derives the five arcs from split + counters of the real struct cache", "gcc + ASan/UBSan"],
+                             "harness/s_cache.c derives the five arcs from split + counters of the real struct cache", "gcc + ASan/UBSan"], big_cache_probe=big,
                broken_theorems=proof["broken"], theorems=THEOREMS,
                evaluations=len(allops), distinct_nontrivial=len(states),
                rule="random protocol-respecting histories (get / insert-or-discard by fillers / put) at capacities %s, keys <= cap+2 (2cap+3 in long runs), "
